@@ -116,6 +116,26 @@ def _merge(ranges: list[tuple[int, int]]) -> list[tuple[int, int]]:
     return out
 
 
+_icase_cache: dict[tuple[int, bool, bool], list[tuple[int, int]]] = {}
+_ALLCHARS: list[str] = []
+
+
+def _icase_variants(cp: int, ascii_only: bool, is_bytes: bool) -> list[tuple[int, int]]:
+    """Every character a literal matches under re.IGNORECASE, obtained from CPython's own matcher
+    (Unicode patterns fold e.g. U+212A KELVIN SIGN onto ``k`` and U+017F onto ``s``)."""
+    key = (cp, ascii_only, is_bytes)
+    if key not in _icase_cache:
+        if is_bytes:
+            hits = [b[0] for b in re.compile(re.escape(bytes([cp])), re.IGNORECASE).findall(bytes(range(256)))]
+        else:
+            if not _ALLCHARS:
+                _ALLCHARS.append("".join(chr(i) for i in range(MAXCHAR + 1)))
+            flags = re.IGNORECASE | (re.ASCII if ascii_only else 0)
+            hits = [ord(c) for c in re.compile(re.escape(chr(cp)), flags).findall(_ALLCHARS[0])]
+        _icase_cache[key] = [(h, h) for h in hits]
+    return _icase_cache[key]
+
+
 class Translator:
     def __init__(self, flags: int, is_bytes: bool) -> None:
         self.flags = flags
@@ -138,10 +158,7 @@ class Translator:
             raise Unsupported(f"literal U+{cp:X} beyond the modelled character range")
         r = [(cp, cp)]
         if self.icase:
-            c = chr(cp)
-            for v in {c.lower(), c.upper()}:
-                if len(v) == 1 and ord(v) <= self.limit:
-                    r.append((ord(v), ord(v)))
+            r += _icase_variants(cp, self.ascii, self.is_bytes)
         return r
 
     def class_ranges(self, items: list[Any]) -> list[tuple[int, int]]:
@@ -254,6 +271,14 @@ def start_anchored(tree: Any) -> bool:
 def language(p: "re.Pattern[Any]", mode: str = "fullmatch") -> Any:
     """The set of subject strings for which ``p.<mode>(s)`` succeeds."""
     tree, tr = parsed(p)
+    return _language(list(tree), tr, mode)
+
+
+def _language(tree: Any, tr: Translator, mode: str) -> Any:
+    # a pattern that is a single top-level alternation with `^`/`$` inside some alternatives
+    # (`a|^b$|c`): anchors bind per alternative, so the language is the union of the alternatives'
+    if len(tree) == 1 and tree[0][0] is sre_c.BRANCH and any(start_anchored(a) or end_anchored(a) for a in tree[0][1][1]):
+        return _union([_language(list(alt), tr, mode) for alt in tree[0][1][1]])
     core = tr.seq(tree, True)
     any_ = z3.Star(tr.anychar())
     if mode == "fullmatch":
